@@ -493,6 +493,56 @@ def r3(k: Kit) -> None:
               f'all {n} (state, character class) transitions follow the '
               'OpenSSH quoting rules',
               f'option tokenizer transition differs: {bad}', po.loc(po.node))
+    # the whole function on witness lines (a path that bypasses the loop
+    # must agree with it)
+    def ref(line):
+        opts, cur, q, e, end = [], '', False, False, len(line) - 1
+        for i, ch in enumerate(line):
+            end = i
+            if e:
+                cur += ch
+                e = False
+            elif ch == '\\':
+                e = True
+            elif ch == '"':
+                q = not q
+            elif q:
+                cur += ch
+            elif ch in ' \t':
+                break
+            elif ch == ',':
+                opts.append(cur)
+                cur = ''
+            else:
+                cur += ch
+        opts.append(cur)
+        return opts, line[end:].strip()
+    wit = ['no-pty,no-agent-forwarding\tssh-ed25519 AAAA',
+           'no-pty,no-agent-forwarding ssh-ed25519 AAAA',
+           'no-pty\tssh-rsa AAAA c', 'a=b\t\tkey', 'a=b \tkey',
+           'command="x y",no-pty\tssh-rsa AAAA', 'from="a,b" key',
+           'environment="A=\\"q\\"" key', 'cert-authority key comment x',
+           'restrict,pty\tkey\tcomment']
+    bad = None
+    for line in wit:
+        try:
+            o = evaluate(idx, po.module, po.node.body, {}, {'line': line},
+                         lambda nm, a, e: Obj('x'))
+        except NotEvaluable as exc:
+            rep.error('C17.R3', 'not-evaluable', str(exc))
+            return
+        got = ([a[0] for nm, a in o.calls if nm == 'self._add_option'],
+               o.value if o.kind == 'return' else o.kind)
+        want = ref(line)
+        if got != (want[0], want[1]) and bad is None:
+            bad = f'line {line!r}: options {got[0]}, rest {got[1]!r}; ' \
+                f'OpenSSH rules give {want[0]}, {want[1]!r}'
+    rep.count('eval.option_lines', len(wit))
+    rep.check(bad is None, 'C17.R3', key(po, 'option field ends at blank or tab'),
+              f'{len(wit)} witness lines (blank / tab separated, quoted, '
+              'escaped) split as by the OpenSSH rules',
+              f'{bad}: the entry is dropped or loses a restriction depending '
+              'on the white space used', po.loc(po.node))
     g = k.cfg(po)
     for flag in ('quoted', 'escaped'):
         okf = False
@@ -677,20 +727,19 @@ def r3_accumulate(k: Kit) -> None:
     rep.floor('C17.R3', 'accumulating option handlers', len(seen), 5)
 
 
-def r5(k: Kit) -> None:
-    """Bracket escaping of host patterns; every line for a key is tried."""
+def wildcard_witnesses(k: Kit, rule: str) -> None:
+    """_BaseWildcardPattern.__init__ and _matches evaluated on witnesses;
+    fnmatch / re calls on concrete strings are folded with the library."""
     import fnmatch
+    import re
     rep = k.rep
     idx = k.idx
-    rep.rule('C17.R5', 'the wildcard translation of a host pattern is '
-             'evaluated on bracketed witnesses ([host]:port forms) and the '
-             'result handed to fnmatch: `[` and `]` match themselves, `*` '
-             'and `?` stay wildcards; SSHAuthorizedKeys.validate and '
-             'SSHAllowedSigners.validate try every entry listing the key, a '
-             'non-matching line does not end the search')
     fi = k.func('pattern._BaseWildcardPattern.__init__')
-    body = [st for st in fi.node.body if not (
-        isinstance(st, ast.Expr) and isinstance(st.value, ast.Constant))]
+    mf = k.func('pattern._BaseWildcardPattern._matches')
+
+    def strip(f):
+        return [st for st in f.node.body if not (
+            isinstance(st, ast.Expr) and isinstance(st.value, ast.Constant))]
     bad = None
     n = 0
     cases = [('[gw]:2222', '[gw]:2222', True), ('[gw]:2222', 'gw', False),
@@ -700,36 +749,93 @@ def r5(k: Kit) -> None:
              ('[*.example.com]:22', 'a.example.com', False),
              ('*.example.com', 'a.example.com', True),
              ('a]b[c', 'a]b[c', True), ('[[x]]', '[[x]]', True),
-             ('[ab]', 'a', False)]
+             ('[ab]', 'a', False),
+             # the whole value is matched, not a prefix or a substring
+             ('gw', 'gw.evil.example', False), ('gw', 'xgw', False),
+             ('10.0.0.?', '10.0.0.77', False),
+             ('*.example.com', 'a.example.com.evil.net', False),
+             ('host?', 'host', False), ('a.b', 'aXb', False),
+             ('h*t', 'host', True), ('*', 'anything', True)]
+    compiled = {}
+
+    def on_call(nm, args, env):
+        if nm in ('fnmatch', 'fnmatchcase', 'fnmatch.fnmatch',
+                  'fnmatch.fnmatchcase') and len(args) == 2 and \
+                all(isinstance(a, str) for a in args):
+            return fnmatch.fnmatchcase(*args)
+        if nm == 're.escape' and len(args) == 1 and isinstance(args[0], str):
+            return re.escape(args[0])
+        if nm == 'fnmatch.translate' and isinstance(args[0], str):
+            return fnmatch.translate(args[0])
+        if nm == 're.compile' and args and isinstance(args[0], str):
+            flags = 0
+            for a in args[1:]:
+                if isinstance(a, int):
+                    flags |= a
+            tag = f'RE#{len(compiled)}'
+            compiled[tag] = re.compile(args[0], flags)
+            return Obj(tag)
+        meth = nm.rsplit('.', 1)[-1]
+        if meth in ('match', 'fullmatch', 'search'):
+            recv = env.get(nm.rsplit('.', 1)[0]) if '.' in nm else None
+            if nm.startswith('re.') and len(args) >= 2 and \
+                    isinstance(args[0], str) and isinstance(args[1], str):
+                r = getattr(re, meth)(args[0], args[1])
+                return Obj('MATCH') if r else None
+            if isinstance(recv, Obj) and recv.tag in compiled and \
+                    isinstance(args[0], str):
+                r = getattr(compiled[recv.tag], meth)(args[0])
+                return Obj('MATCH') if r else None
+        return Obj('x')
+    consts = {'re.DOTALL': int(re.DOTALL), 're.S': int(re.S),
+              're.IGNORECASE': int(re.IGNORECASE), 're.I': int(re.I)}
     for pat, value, want in cases:
         n += 1
         try:
-            o = evaluate(idx, fi.module, body, {}, {'pattern': pat},
-                         lambda a, b, e: Obj('x'))
+            env = dict(consts)
+            env['pattern'] = pat
+            o = evaluate(idx, fi.module, strip(fi), {}, env, on_call)
+            tr = o.env.get('self._pattern')
+            if tr is None:
+                tr = dict(o.stores).get('self._pattern')
+            env2 = dict(consts)
+            env2.update({'value': value, 'self._pattern': tr})
+            o2 = evaluate(idx, mf.module, strip(mf), {'self._pattern': tr},
+                          env2, on_call)
         except NotEvaluable as exc:
-            rep.error('C17.R5', key(fi, 'not-evaluable'), str(exc))
+            rep.error(rule, key(fi, 'not-evaluable'), str(exc))
             bad = 'error'
             break
-        tr = o.env.get('self._pattern')
-        if tr is None:
-            tr = dict(o.stores).get('self._pattern') if not isinstance(
-                o.stores, dict) else o.stores.get('self._pattern')
-        if not isinstance(tr, str):
-            bad = bad or f'pattern {pat!r}: translation not concrete ({tr!r})'
+        if o2.kind != 'return' or not isinstance(o2.value, bool):
+            bad = bad or (f'pattern {pat!r}: match result not concrete '
+                          f'({o2!r}; stored pattern {tr!r})')
             continue
-        got = fnmatch.fnmatchcase(value, tr)
-        if got != want:
-            bad = bad or (f'pattern {pat!r} is translated to {tr!r}, which '
-                          f'{"matches" if got else "does not match"} '
+        if o2.value != want:
+            bad = bad or (f'pattern {pat!r} (stored as {tr!r}) '
+                          f'{"matches" if o2.value else "does not match"} '
                           f'{value!r}')
     if bad != 'error':
-        rep.count('eval.bracket_pattern_cases', n)
-        rep.check(bad is None, 'C17.R5', key(fi, 'bracket escaping'),
-                  f'{n} (pattern, value) witnesses through fnmatch',
-                  f'{bad}: known_hosts lines combining a [host]:port form '
-                  'with a wildcard or negation never match, so the '
-                  'plain-name fallback or a missed @revoked line decides',
-                  fi.loc(fi.node))
+        rep.count('eval.wildcard_pattern_cases', n)
+        rep.check(bad is None, rule, key(fi, 'wildcard match'),
+                  f'{n} (pattern, value) witnesses: brackets literal, * and '
+                  '? wild, whole value matched',
+                  f'{bad}: a known_hosts / from= pattern accepts names it '
+                  'does not denote (prefix matches make `gw` trust '
+                  '`gw.evil.example`) or [host]:port forms with wildcards '
+                  'never match', fi.loc(fi.node))
+
+
+def r5(k: Kit) -> None:
+    """Bracket escaping of host patterns; every line for a key is tried."""
+    rep = k.rep
+    idx = k.idx
+    rep.rule('C17.R5', 'the wildcard translation of a host pattern is '
+             'evaluated on bracketed witnesses ([host]:port forms) and the '
+             'result handed to fnmatch: `[` and `]` match themselves, `*` '
+             'and `?` stay wildcards; SSHAuthorizedKeys.validate and '
+             'SSHAllowedSigners.validate try every entry listing the key, a '
+             'non-matching line does not end the search')
+    wildcard_witnesses(k, 'C17.R5')
     for qual in ('auth_keys.SSHAuthorizedKeys.validate',
                  'sshsig.SSHAllowedSigners.validate'):
         if not idx.has_func(qual):
